@@ -7,8 +7,10 @@ vars == <<i, done>>
 RECURSIVE Abs(_)
 Abs(p) == IF p.k = "F" THEN Fib([k \in 1..Len(p.e) |-> <<p.e[k][1], Abs(p.e[k][2])>>])
           ELSE IF p.k = "L" THEN Leaf(p.v) ELSE [k |-> "X"]
-C0(B) == Content(Abs(B.pre.root), 0)
-CR(r) == Content(Abs(r.root), 0)
+\* content relative to the leaf default of the case (0 unless the case says otherwise)
+C0(B) == Content(Abs(B.pre.root), B.dflt)
+CRd(r, d) == Content(Abs(r.root), d)
+CR(r) == CRd(r, 0)
 \* a result is a well-formed tree; if it is a tensor its rank lists mirror it
 ResultWF(r, n) == /\ NoForeign(r.root) /\ ParallelLists(r.root) /\ WFS(r.root) /\ DepthIs(r.root, n)
                   /\ (r.rank0 = 0 /\ Len(r.ranks) > 0) => ((\A k \in 1..Len(r.ranks) : RankListOK(r, k)) /\ OwnersOK(r.root, 0) /\ ChainOK(r) /\ RootFirst(r) /\ Len(r.ranks) = n)
@@ -40,9 +42,10 @@ Judge(B) ==
                   <<"P:C09:swap-involution", NoForeign(B.res2.root) => CR(B.res2) = C1>> >>)
     [] B.op = "flatten" ->
          Fails(<< <<"P:C09:result-wf", ResultWF(B.res, n - B.levels)>>,
-                  <<"P:C09:flatten-image", NoForeign(B.res.root) => CR(B.res) = {<<FlattenPt(x[1], B.d, B.levels, B.style, sh), x[2]>> : x \in C0(B)}>>,
+                  <<"P:C09:flatten-image", NoForeign(B.res.root) => CRd(B.res, B.dflt) = {<<FlattenPt(x[1], B.d, B.levels, B.style, sh), x[2]>> : x \in C0(B)}>>,
                   <<"P:C09:flatten-nesting", B.nest = "" \/ B.nest = ExpNest(B.style, B.levels)>>,
-                  <<"P:C09:unflatten-inverse", (B.style \in {"tuple", "pair"} /\ B.did2 = 1) => (ResultWF(B.res2, n) /\ CR(B.res2) = C0(B))>> >>)
+                  \* the round trip gives back the operand: same content, and unwritten points read the same default as before (leafdflt: every leaf fiber's default)
+                  <<"P:C09:unflatten-inverse", (B.style \in {"tuple", "pair"} /\ B.did2 = 1) => (ResultWF(B.res2, n) /\ CRd(B.res2, B.dflt) = C0(B) /\ B.leafdflt_ok = 1)>> >>)
     [] B.op = "merge" ->
          Fails(<< <<"P:C09:result-wf", ResultWF(B.res, n - B.levels)>>,
                   <<"P:C09:merge-reduce", NoForeign(B.res.root) => CR(B.res) = MergeC(C0(B), B.d, B.levels, B.style, sh, B.fn)>> >>)
